@@ -108,8 +108,6 @@ func hits(kind string, chans []string, target string) int {
 	return n
 }
 
-var dbgBacklog = false
-
 var (
 	dumpMu  sync.Mutex
 	dumpBuf = make([]byte, 8<<20)
@@ -325,13 +323,13 @@ func runBacklog(run *mon.Run, bc backlogCase, info *backlogInfo) (w *world) {
 		case <-stalled:
 		case <-victim.done: // it must not have ended: evaluate() will say what is wrong with its return value
 			early = true
+		case <-time.After(time.Hour): // virtual: the bubble was idle and the consumer never saw its message
+			run.Inconclusive("backlog history: the victim's consumer never received message prompt+1 (harness): " + bc.String())
+			return nil
 		}
 	}
 	info.early.Store(early)
 	pwg.Wait()
-	if dbgBacklog {
-		fmt.Printf("DBG2 #%d victimChans=%v vt=%v need=%d published=%d early=%v\n", bc.idx, victim.chans, vt, need, w.published.Load(), early)
-	}
 	time.Sleep(20 * time.Millisecond) // virtual, NOT a settle point of the oracle: the victim's backlog is still on its way
 	stage("backlogged")
 	parked, where := readerParked()
@@ -496,19 +494,27 @@ func bubbleState(dump string, b int) (sig, stacks string, still bool) {
 	return strings.Join(sigs, " "), strings.Join(keep, "\n\n"), still
 }
 
-// goroutineIn describes the goroutine of a dump that is inside fn: its state and its innermost rueidis frame.
+// goroutineIn describes a goroutine of a dump that is inside fn: its state and its innermost rueidis frame. A goroutine
+// waiting for a lock is preferred (several Receives are usually present; the interesting one is the one that is stuck).
 func goroutineIn(stacks, fn string) (state, frame string) {
+	found := false
 	for _, g := range strings.Split(stacks, "\n\n") {
 		if !strings.Contains(g, fn) {
 			continue
 		}
 		head, _, _ := strings.Cut(g, "\n")
+		st := ""
 		if m := headRe.FindStringSubmatch(head); m != nil {
-			state = m[2]
-			if i := strings.IndexByte(state, ','); i >= 0 {
-				state = state[:i]
+			st = m[2]
+			if i := strings.IndexByte(st, ','); i >= 0 {
+				st = st[:i]
 			}
 		}
+		onLock := strings.HasPrefix(st, "sync.Mutex") || strings.HasPrefix(st, "sync.RWMutex") || strings.HasPrefix(st, "semacquire")
+		if found && !onLock {
+			continue
+		}
+		found, state, frame = true, st, ""
 		if fs := drv.RueidisFrames(g); len(fs) > 0 {
 			frame = fs[0]
 			if i := strings.Index(frame, " @ "); i >= 0 {
@@ -516,9 +522,11 @@ func goroutineIn(stacks, fn string) (state, frame string) {
 			}
 			frame = strings.TrimPrefix(frame, "github.com/redis/rueidis.")
 		}
-		return
+		if onLock {
+			return
+		}
 	}
-	return "", ""
+	return
 }
 
 func checkBacklog(t *testing.T, run *mon.Run, st *stats) {
@@ -565,9 +573,6 @@ func checkBacklog(t *testing.T, run *mon.Run, st *stats) {
 		wit := map[string]any{"history": bc.String(), "stage": stg, "reader_parked_when_context_ended": info.parkedAtEnd.Load(), "reader_at": info.parkedWhere.Load(),
 			"victim_backlog_on_the_wire": info.wireBacklog.Load(), "messages_taken_after_the_end": info.chances.Load(), "victim_returned": info.victimReturn.Load()}
 		resp := "resp2=" + strconv.FormatBool(bc.resp2)
-		if dbgBacklog {
-			fmt.Printf("DBG %v\n", wit)
-		}
 		switch {
 		case pan != nil:
 			run.Violation("panic", "backlog|"+bc.end, merge(wit, map[string]any{"panic": fmt.Sprint(pan)}))
